@@ -869,6 +869,8 @@ func (dru *dirRepoUpload) Verify(expect digest.Digest) error {
 		return fmt.Errorf("digest mismatch, session expects %s, received %s", dru.expect, expect)
 	}
 	if dru.d.Digest() == expect {
+		// content written after the verification is rejected by Close
+		dru.expect = expect
 		return nil
 	}
 	if err := expect.Validate(); err != nil {
@@ -887,6 +889,7 @@ func (dru *dirRepoUpload) Verify(expect digest.Digest) error {
 			return fmt.Errorf("failed to scan the file to recompute the digest: %w", err)
 		}
 		if dru.d.Digest() == expect {
+			dru.expect = expect
 			return nil
 		}
 	}
